@@ -87,6 +87,42 @@ def coherence(trace, model, h, what="trace", kind="top", x=None):
     return out, r
 
 
+_LOCSCALE = {"normal": "n", "normal_s": "n", "laplace": "l", "uniform": "u", "exponential": "e"}
+
+
+def shared_noise_pairs(sites, tol=2e-5):
+    """Pairs of site lanes of one execution whose draws carry the same underlying noise: equal
+    standardised residuals for location-scale families (a sampler that is `loc + scale * noise(key)`
+    returns the same noise for the same key), equal values for equal parameters otherwise. A single
+    coincidence has probability ~1e-5 per pair, so callers confirm a suspect pair under fresh keys
+    before reporting. Returns a set of ((path, idx), (path, idx))."""
+    groups = {}
+    for s in sites:
+        if not s.get("live", True):
+            continue
+        v = np.asarray(s["value"], dtype=np.float64)
+        if v.ndim != 0 or progs.DISTS[s["d"]]["kind"] != "c":
+            continue
+        p = [np.asarray(q, dtype=np.float64) for q in s["params"]]
+        fam = _LOCSCALE.get(s["d"])
+        if fam in ("n", "l"):
+            z = (v - p[0]) / p[1]
+        elif fam == "u":
+            z = (v - p[0]) / (p[1] - p[0])
+        elif fam == "e":
+            z = v * p[0]
+        else:
+            fam, z = (s["d"],) + tuple(float(q) for q in np.concatenate([np.ravel(q) for q in p])), v
+        groups.setdefault(fam, []).append(((tuple(s["path"]), tuple(s["idx"])), float(z)))
+    out = set()
+    for members in groups.values():
+        members.sort(key=lambda m: m[1])
+        for (a, za), (b, zb) in zip(members, members[1:]):
+            if abs(za - zb) <= tol * max(1.0, abs(za)):
+                out.add((a, b) if a < b else (b, a))
+    return out
+
+
 def V(cls, clause, message, **sig):
     return {"class": cls, "clause": clause, "message": message, "sig": sig}
 
@@ -271,6 +307,10 @@ def shrink_model(m):
         if b.get("kw"):
             c = copy.deepcopy(m)
             c["blocks"][i]["kw"] = False
+            yield c
+        if "g" in b:
+            c = copy.deepcopy(m)
+            del c["blocks"][i]["g"]
             yield c
         if b["k"] == "vsite" and b["mode"] != "all":
             c = copy.deepcopy(m)
